@@ -579,7 +579,8 @@ def method(ex, base, attr, args, st, node):
         key = f"{base.cls}.{attr}"
         if key in ext:
             ex.assumed.add(f"{key}: {(ext[key].__doc__ or '').strip()}")
-            return E.wrap_any(ext[key](ex, st, [base] + list(args), {}, node))
+            kwargs = {k.arg: ex.eval(k.value, st) for k in getattr(node, "keywords", []) if k.arg is not None}
+            return E.wrap_any(ext[key](ex, st, [base] + list(args), kwargs, node))
     if isinstance(base, SliceV) and attr == "indices":
         n = S.as_int(ex.need_int(args[0], st, node))
         ex.oblige(st, "safe", "slice-step-nonzero", S.step_ok(base), node.lineno,
